@@ -636,4 +636,72 @@ theorem fcAuth_roundtrip (st : S_agd_AuthSettings) (ph : AbsPtr) (hok : st.DoHAu
   | mk en d =>
     cases en <;> cases d <;> simp_all [fcAuth_toInternal_spec]
 
+/-! ## The converters against the model of `Agd.Model.Device` (settings from the backend / the cache file) -/
+
+/-- The two flags of the model's settings, as the translated `agd.AuthSettings`. -/
+def flagsOf (a : Agd.Device.AuthSettings) : S_agd_AuthSettings := { Enabled := a.enabled, DoHAuthOnly := a.dohOnly }
+
+/-- `backendpb.AuthenticationSettings.toInternal` = the model's `authOfMsg` on the flags, whatever the
+password hash of the message. -/
+theorem pbAuth_toInternal_model (x : Option S_backendpb_AuthenticationSettings) (ptr : AbsPtr)
+    (h : Option (Agd.Device.Str → Bool)) :
+    pbAuth_toInternal x (ptr, none) =
+      some (some (flagsOf (Agd.Device.authOfMsg (x.map fun a => { dohOnly := a.DohAuthOnly, hash := h }))), none) := by
+  rw [pbAuth_toInternal_spec]
+  cases x <;> rfl
+
+/-- `filecachepb.AuthenticationSettings.toInternal` = the same model function. -/
+theorem fcAuth_toInternal_model (x : Option S_filecachepb_AuthenticationSettings) (ptr : AbsPtr)
+    (h : Option (Agd.Device.Str → Bool)) :
+    fcAuth_toInternal x (ptr, none) =
+      some (some (flagsOf (Agd.Device.authOfMsg (x.map fun a => { dohOnly := a.DohAuthOnly, hash := h }))), none) := by
+  rw [fcAuth_toInternal_spec]
+  cases x <;> rfl
+
+/-- `filecachepb.authToProtobuf` = the model's `cacheOfAuth`: a message is written exactly for enabled
+settings — whatever their password hash — and carries their DoH-only flag. -/
+theorem fcAuthToProtobuf_model (a : Agd.Device.AuthSettings) :
+    fcAuthToProtobuf (some (flagsOf a)) =
+      some ((Agd.Device.cacheOfAuth a).map fun m =>
+        ({ DohAuthOnly := m.dohOnly, sizeCache := 0, unknownFields := [] } : S_filecachepb_AuthenticationSettings)) := by
+  unfold fcAuthToProtobuf Agd.Device.cacheOfAuth flagsOf
+  obtain ⟨en, d, h⟩ := a
+  cases en <;> simp
+
+/-- `filecachepb.authToProtobuf` writes a message iff the settings are enabled: in particular for
+enabled settings without a password hash. -/
+theorem fcAuthToProtobuf_written_iff (st : S_agd_AuthSettings) :
+    ∃ pb, fcAuthToProtobuf (some st) = some pb ∧ (pb.isSome = st.Enabled) ∧
+      ∀ m, pb = some m → m.DohAuthOnly = st.DoHAuthOnly := by
+  unfold fcAuthToProtobuf
+  obtain ⟨en, d⟩ := st
+  cases en <;> simp
+
+/-- `filecachepb.dohPasswordToProtobuf`: the allow-all authenticator is written as "no hash" (nil), a
+bcrypt hash as a non-nil value; it panics exactly on another kind of authenticator (which the converters
+never produce, `dohPassword_nonnil`). -/
+theorem fcDohPasswordToProtobuf_spec (isAllow isBcrypt : Bool) (h : List Int) :
+    fcDohPasswordToProtobuf isAllow isBcrypt h =
+      if isAllow then some false else if isBcrypt then some true else none := by
+  unfold fcDohPasswordToProtobuf
+  cases isAllow <;> cases isBcrypt <;> rfl
+
+/-- `filecachepb.dohPasswordToInternal`: "no hash" is read back as a non-nil authenticator (the allow-all
+one) without an error, a bcrypt value as the hash object; only another kind of value is an error. -/
+theorem fcDohPasswordToInternal_spec (isNil isBcrypt : Bool) (h : Option S_agdpasswd_PasswordHashBcrypt) :
+    fcDohPasswordToInternal isNil isBcrypt h =
+      if isNil then (true, none) else if isBcrypt then (h.isSome, none)
+      else (false, some "fmt.Errorf(\"bad pb auth doh password hash %T(%[1]v)\", pbp)") := by
+  unfold fcDohPasswordToInternal
+  cases isNil <;> cases isBcrypt <;> rfl
+
+/-- Kind round trip of the password hash through the cache file: what `dohPasswordToProtobuf` writes for
+the allow-all authenticator (nil) or for a bcrypt hash (non-nil bcrypt value), `dohPasswordToInternal`
+reads back without an error as a non-nil authenticator. -/
+theorem fcDohPassword_roundtrip (isAllow isBcrypt : Bool) (hk : (isAllow || isBcrypt) = true) (b : List Int)
+    (h : Option S_agdpasswd_PasswordHashBcrypt) (hh : h.isSome = true) :
+    ∃ nonNil, fcDohPasswordToProtobuf isAllow isBcrypt b = some nonNil ∧
+      fcDohPasswordToInternal (!nonNil) nonNil h = (true, none) := by
+  cases isAllow <;> cases isBcrypt <;> simp_all [fcDohPasswordToProtobuf_spec, fcDohPasswordToInternal_spec]
+
 end Agd.Tie.TrC03
